@@ -364,3 +364,76 @@ def fam_derived():
             out.append((f"FD:{name}:chain={chain}", ModelSpec('m', ops, nodes, edges, note=f"derived operator {name}"),
                         {'dop': text}))
     return out
+
+
+def fam_discrete_delays(seed=0, n=16, dt=F(1, 4), max_steps=4):
+    """C09: mixtures of delayed and undelayed edges; delays rounding to 2..max_steps steps (incl. values that are not
+    multiples of dt); several delays per source / per target; one or two node types; algebraic sources."""
+    rnd = random.Random(seed)
+    out = []
+    for k in range(n):
+        fp = FP()
+        ops = {'li': op_leaky(fp), 'o1': op_two_inputs(fp)}
+        ops['li'].vars['u'] = ('input', F(0))
+        ops['o1'].vars['u'] = ('input', F(0))
+        ops['o1'].vars['w'] = ('input', F(0))
+        na = rnd.randint(2, 3)
+        nb = rnd.randint(0, 2) if k % 2 else 0
+        nodes = {}
+        for i in range(na):
+            nodes[f"a{i}"] = NodeSpec(['li'], _node_overrides(fp, ops, ['li']))
+        for i in range(nb):
+            nodes[f"b{i}"] = NodeSpec(['o1'], _node_overrides(fp, ops, ['o1']))
+        names = list(nodes)
+        edges = []
+        seen = set()
+        ne = rnd.randint(2, 5)
+        tries = 0
+        while len(edges) < ne and tries < 50:
+            tries += 1
+            s, t = rnd.choice(names), rnd.choice(names)
+            sv = 'li/x' if s.startswith('a') else 'o1/x'
+            tv_ = 'li/u' if t.startswith('a') else rnd.choice(['o1/u', 'o1/w'])
+            if (s, f"{t}/{tv_}") in seen:
+                continue
+            seen.add((s, f"{t}/{tv_}"))
+            r = rnd.random()
+            if r < 0.3:
+                d = None
+            else:
+                steps = rnd.randint(2, max_steps)
+                d = dt * steps + rnd.choice([F(0), F(0), dt / 4, -dt / 4, dt * 2 / 5])
+            edges.append(EdgeSpec(f"{s}/{sv}", f"{t}/{tv_}", fp(), delay=d))
+        if not any(e.delay is not None for e in edges):
+            edges[0].delay = dt * 2
+        out.append((f"F9:{seed}:{k}", ModelSpec('m', ops, nodes, edges, note="discrete delays")))
+    return out
+
+
+def fam_discrete_delays_fixed():
+    """hand-picked delay shapes named in the property"""
+    out = []
+    dt = F(1, 4)
+
+    def mk(edges_fn, note, n=3):
+        fp = FP()
+        ops = {'li': op_leaky(fp)}
+        ops['li'].vars['u'] = ('input', F(0))
+        nodes = {f"a{i}": NodeSpec(['li'], _node_overrides(fp, ops, ['li'])) for i in range(n)}
+        return ModelSpec('m', ops, nodes, edges_fn(fp), note=note)
+    E = EdgeSpec
+    out.append(("F9x:mixed-fanout", mk(lambda fp: [E('a0/li/x', 'a1/li/u', fp(), delay=dt * 2),
+                                                   E('a0/li/x', 'a2/li/u', fp())], "delayed + undelayed edge out of one source")))
+    out.append(("F9x:two-delays-one-source", mk(lambda fp: [E('a0/li/x', 'a1/li/u', fp(), delay=dt * 2),
+                                                            E('a0/li/x', 'a2/li/u', fp(), delay=dt * 3)], "two delays, one source")))
+    out.append(("F9x:two-delays-one-target", mk(lambda fp: [E('a0/li/x', 'a2/li/u', fp(), delay=dt * 2),
+                                                            E('a1/li/x', 'a2/li/u', fp(), delay=dt * 4)], "two delays, one target")))
+    out.append(("F9x:ring", mk(lambda fp: [E('a0/li/x', 'a1/li/u', fp(), delay=dt * 2), E('a1/li/x', 'a2/li/u', fp(), delay=dt * 2),
+                                           E('a2/li/x', 'a0/li/u', fp(), delay=dt * 3)], "ring with delays")))
+    out.append(("F9x:self", mk(lambda fp: [E('a0/li/x', 'a0/li/u', fp(), delay=dt * 3), E('a1/li/x', 'a0/li/u', fp())],
+                               "delayed self connection + undelayed input")))
+    out.append(("F9x:undelayed-other-source", mk(lambda fp: [E('a0/li/x', 'a1/li/u', fp(), delay=dt * 2),
+                                                             E('a1/li/x', 'a0/li/u', fp())], "undelayed edge from a node without delayed edges")))
+    out.append(("F9x:rounding", mk(lambda fp: [E('a0/li/x', 'a1/li/u', fp(), delay=dt * F(12, 5)),
+                                               E('a1/li/x', 'a2/li/u', fp(), delay=dt * F(13, 5))], "d/dt = 2.4 and 2.6")))
+    return out
